@@ -219,7 +219,7 @@ func runWorkers(id, tier, bin string, n int, outdir, param string, merged *evid.
 			cmd := exec.Command(bin, "worker", id, tier, strconv.Itoa(k), strconv.Itoa(n), outdir)
 			cmd.Env = append(os.Environ(), "GOMAXPROCS=2", "VERIF_PARAM="+param)
 			if param == "sched" {
-				cmd.Env = append(cmd.Env, "GOMAXPROCS=1",
+				cmd.Env = append(cmd.Env, "GOMAXPROCS=2",
 					"GORACE=halt_on_error=0 log_path="+filepath.Join(outdir, fmt.Sprintf("race%d", k)))
 			}
 			errf, _ := os.Create(filepath.Join(outdir, fmt.Sprintf("w%d.stderr", k)))
